@@ -445,6 +445,23 @@ impl ProjectGenerator {
     /// # Arguments
     /// * `main_code` - The main.rs code (without mod declarations, they will be prepended)
     /// * `modules` - HashMap of path segments to module code (e.g., ["db", "models"] -> "pub struct User { ... }")
+    /// Put `mod` declarations into a generated source file: right after the crate-level `#![allow(..)]` line when
+    /// there is one (inner attributes must precede every item), else at the top.
+    fn insert_mod_declarations(code: &str, decls: &str) -> String {
+        let mut out = code.to_string();
+        if let Some(attr_pos) = out.find("#![allow(") {
+            let line_end = out[attr_pos..]
+                .find('\n')
+                .map(|o| attr_pos + o + 1)
+                .unwrap_or(out.len());
+            out.insert_str(line_end, decls);
+            out.insert(line_end + decls.len(), '\n');
+            out
+        } else {
+            format!("{}\n{}", decls, out)
+        }
+    }
+
     pub fn generate_nested(&self, main_code: &str, modules: &HashMap<Vec<String>, String>) -> io::Result<()> {
         let src_dir = self.output_dir.join("src");
         fs::create_dir_all(&src_dir)?;
@@ -494,6 +511,12 @@ impl ProjectGenerator {
             }
             fs::create_dir_all(&dir)?;
 
+            // A module that also has submodules (`a.incn` next to `a/b.incn`) becomes `a.rs` + `a/b.rs`: Rust rejects
+            // `a.rs` together with `a/mod.rs` (E0761), so its child declarations go into `a.rs` itself (below).
+            if modules.contains_key(dir_path) {
+                continue;
+            }
+
             // Create mod.rs with pub mod declarations
             let mod_rs_content: String = submodules
                 .iter()
@@ -520,7 +543,13 @@ impl ProjectGenerator {
             let file_name = format!("{file_stem}.rs");
             file_path = file_path.join(file_name);
 
-            fs::write(file_path, module_code)?;
+            match dir_submodules.get(path_segments) {
+                Some(submodules) => {
+                    let decls: String = submodules.iter().map(|s| format!("pub mod {};\n", s)).collect();
+                    fs::write(file_path, Self::insert_mod_declarations(module_code, &decls))?;
+                }
+                None => fs::write(file_path, module_code)?,
+            }
         }
 
         // Build main.rs with the crate-level prelude first, then top-level mod declarations.
@@ -533,17 +562,7 @@ impl ProjectGenerator {
         sorted_top.sort();
         if !sorted_top.is_empty() {
             let mods: String = sorted_top.iter().map(|m| format!("mod {};\n", m)).collect();
-
-            if let Some(attr_pos) = full_main.find("#![allow(") {
-                let line_end = full_main[attr_pos..]
-                    .find('\n')
-                    .map(|o| attr_pos + o + 1)
-                    .unwrap_or(full_main.len());
-                full_main.insert_str(line_end, &mods);
-                full_main.insert(line_end + mods.len(), '\n');
-            } else {
-                full_main = format!("{}\n{}", mods, full_main);
-            }
+            full_main = Self::insert_mod_declarations(&full_main, &mods);
         }
 
         // Write main source file
